@@ -364,6 +364,36 @@ graph at save time -/
 def framed (g0 g : G) (keys dom : List Nat) : Bool :=
   dom.all fun x => keys.contains x || decide (g.conns x = g0.conns x)
 
+/-! ## connections formed through calls: `set_input_values(*args, **kwargs)`, `node.run(**kwargs)`, `node(**kwargs)`
+
+    self._ensure_all_input_keys_present(kwargs.keys(), self.inputs.labels)     -- unknown keyword: nothing applied
+    for k, v in kwargs.items():
+        self.inputs[k] = v          -- a channel (or a node with one output): `inputs[k].connect(v.channel)`;
+                                    -- anything else: the value setter (hint test)
+
+The keywords are applied in order; the first refusal raises and the earlier ones stay. -/
+
+inductive CallItem
+  /-- a channel-valued keyword: `inputs[k].connect(out)` -/
+  | chan (a b : Nat)
+  /-- a value the input accepts / refuses (hint) -/
+  | valOk
+  | valBad
+  deriving Repr
+
+def callConn (g : G) : List CallItem → G × Res
+  | [] => (g, .ok)
+  | .chan a b :: rest =>
+    match connect1 g a b with
+    | (g', .ok) => callConn g' rest
+    | (g', e) => (g', e)
+  | .valOk :: rest => callConn g rest
+  | .valBad :: _ => (g, .typeErr)
+
+/-- `known = false`: a keyword names no input, more positional values than inputs, or both ways for one input -/
+def callOp (g : G) (known : Bool) (items : List CallItem) : G × Res :=
+  if known then callConn g items else (g, .connErr)
+
 /-! ## the alphabet of the current tree -/
 
 inductive Op
@@ -386,6 +416,8 @@ inductive Op
   | moveChan (o n : Nat)
   /-- `Node.run_data_tree`: save `keys`, the edits in between, restore by assignment -/
   | pullAttempt (keys : List Nat) (ps : List Prim)
+  /-- `set_input_values` / `run(**kwargs)` / `node(**kwargs)` -/
+  | call (known : Bool) (items : List CallItem)
   deriving Repr
 
 def step (g : G) : Op → G × Res
@@ -401,6 +433,7 @@ def step (g : G) : Op → G × Res
   | .restoreInsert a b => ((restoreInsert g a b).1, .ok)
   | .moveChan o n => ((moveChan g o n).1, .ok)
   | .pullAttempt keys ps => ((pullAttempt g keys ps).1, .ok)
+  | .call known items => callOp g known items
 
 def run (g : G) (ops : List Op) : G := ops.foldl (fun g o => (step g o).1) g
 
